@@ -270,7 +270,7 @@ class V6Loopback:
         vsim.FakeTransport.sendto = self.orig
 
 
-MODES = ["classic"] * 10 + ["big"] * 3 + ["twin"] * 2 + ["ports"] * 2 + ["update"] * 2 + ["unregister"] * 2 + ["v6own"] * 1
+MODES = ["classic"] * 10 + ["big"] * 3 + ["twin"] * 2 + ["ports"] * 2 + ["update"] * 2 + ["unregister"] * 2 + ["v6own"] * 1 + ["retrans"] * 2
 
 
 def make_big_infos(xr):
@@ -378,6 +378,8 @@ def run_scenario(seed, sc_no, mode=None):
         layout = rng.choice(["4", "4", "46", "44", "446", "64"])
         if mode != "classic" and xr.random() < 0.3:
             layout = xr.choice(["6", "66", "664"])      # IPv6-only hosts (second review: never generated before)
+        if mode == "retrans":
+            layout = xr.choice(["44", "44", "446"])     # several sockets: a per-interface socket does not hear the host's own loop-back
         if mode == "v6own":
             layout = xr.choice(["6", "66"])             # no IPv4 socket: the host hears its own records only with a scope id
         host = make_host(sim, layout)
@@ -416,6 +418,8 @@ def run_scenario(seed, sc_no, mode=None):
                 await t
             await sim.sleep_ms(rng.choice([1200, 2000, 30000, 1200000]))
         rx_i = rng.randrange(len(layout))
+        if mode == "retrans":
+            rx_i = 1    # the second IPv4 socket: the host's own multicasts loop back to the first one, this one hears the querier only
         rx_v6 = layout[rx_i] == "6"
         rx_tr = host.transports[rx_i]
         tr = R.Trace(sim, host, uni)
@@ -577,6 +581,20 @@ def run_scenario(seed, sc_no, mode=None):
             box["queries"].append(dict(t=now, src=src, data=data, id=qid, probe=probe))
             rx_tr.protocol.datagram_received(data, src)
 
+        if mode == "retrans":
+            # wave-5 seed C11-w5-seed2: a legacy resolver retransmits the same (non-QU) query every 600..950 ms, 3..6 copies, and nothing
+            # else arrives on that socket in between: every copy that comes a second or more after the last PROCESSED copy is owed its reply
+            await sim.sleep_ms(xr.choice([1100, 1500, 3000]))
+            port = xr.choice([40000, 40000, 1, 65535, 5354])
+            pool = R.question_pool(infos)
+            questions = [xr.choice(pool[:len(pool) - 4]) for _ in range(xr.choice([1, 1, 2]))]
+            data, _q, _u = R.build_query(xr, infos, uni, xr.choice([0, 1, 0x1234]), questions=questions, qus=[False] * len(questions), probe=False, known_p=0.0)
+            src = ("10.0.0.99", port)
+            for k_ in range(xr.choice([3, 4, 5, 6])):
+                if k_:
+                    await sim.sleep_ms(xr.choice([600, 900, 900, 950, xr.randint(600, 950)]))
+                deliver(data, src, family="retransmission", copy=k_)
+            await sim.sleep_ms(1500)
         if mode == "twin":
             # second review, 1(a): the same bytes from two different resolvers (legacy source ports, no QU question) within a second --
             # each of them is owed its own unicast reply; and the control: a true repeat (same sockaddr), which C16 wants dropped
@@ -717,7 +735,10 @@ def check_trace_O(res, box, case):
         res.violate("C11:unsolicited-datagram", "a datagram to %s leaves the host outside every receive, truncated-query and queue block "
                     "(%d bytes at %d ms): it answers no query" % (o["to_full"], len(o["data"]), o["t"] - T0), dict(case, at_ms=o["t"] - T0))
     src_of = {}      # datagram bytes -> full source sockaddr of its latest delivery on this listener
-    prev_rx = None   # the datagram this listener saw last (what the duplicate guard compares with)
+    # the duplicate guard as C16's sentence has it, computed from the input alone: a datagram is a repeat iff its bytes equal those of the
+    # last datagram that was NOT a repeat (the last one processed), that one arrived less than a second ago and was not a query with
+    # a QU question.  (A repeat does not restart the second: wave-5 seed C11-w5-seed2 made the window slide.)
+    guard = None     # (bytes, source sockaddr, arrival time, "query with a QU question") of the last processed datagram
     held = {}        # (address, port) -> the distinct truncated datagrams of that querier still waiting for their reply
     for bi, b in enumerate(tr.blocks):
         at = dict(case, at_ms=b["t"] - T0)
@@ -727,10 +748,13 @@ def check_trace_O(res, box, case):
         # a querier is a source sockaddr -- address AND port (second review 1(b)): the datagrams a reply must be based on are the
         # truncated ones this querier sent before (distinct, not yet answered) and the one at hand
         own = None
+        is_dup = False
+        if b["kind"] == "rx" and mine and len(b["data"]) <= 8966:
+            is_dup = guard is not None and guard[0] == b["data"] and b["t"] - guard[2] < 1000 and not guard[3]
         if b["kind"] == "rx" and mine and b.get("parsed"):
             key = (b["src"][0], b["src"][1])
             if b["parsed"]["flags"] & 0x200:
-                if b["data"] not in held.get(key, []) and (b.get("draws_tc") or not (prev_rx and prev_rx[0] == b["data"])):
+                if b["data"] not in held.get(key, []) and (b.get("draws_tc") or not is_dup):
                     held.setdefault(key, []).append(b["data"])
             elif b["asm"]:
                 own = held.pop(key, []) + [b["data"]]
@@ -787,21 +811,25 @@ def check_trace_O(res, box, case):
                                 b["src"][0], b["src"][1], "".join("U" if q[3] else "M" for q in pkt["questions"]),
                                 [uni.describe(i) for i in owed], ago), at)
             legacy_owed = sorted({rid for qu, cands in pkt["items"] for (rid, ttl, _a, sup) in cands if unsup(rid, ttl, sup)}) if b["src"][1] != 5353 else []
-            if legacy_owed and not owed and not b["outs"] and prev_rx is not None and prev_rx[0] == b["data"] and prev_rx[1] != b["src_full"]:
+            if legacy_owed and not owed and not b["outs"] and is_dup and guard[1] != b["src_full"]:
                 # second review 1(a): the duplicate guard compares the bytes only -- a finding (known_findings.json); a repeat from the
                 # *same* sockaddr is C16's business and not judged here
                 res.violate("C11:identical-bytes-other-source-unanswered",
-                            "a query from %s (source port %d, not 5353) gets no unicast reply because the preceding datagram, %s ms earlier from %s, "
-                            "had the same bytes: %s are owed to this querier" % (b["src_full"], b["src"][1], ago, prev_rx[1], [uni.describe(i) for i in legacy_owed]), at)
+                            "a query from %s (source port %d, not 5353) gets no unicast reply because the last processed datagram, %s ms earlier from %s, "
+                            "had the same bytes: %s are owed to this querier" % (b["src_full"], b["src"][1], b["t"] - guard[2], guard[1],
+                                                                               [uni.describe(i) for i in legacy_owed]), at)
             any_owed = sorted({rid for qu, cands in pkt["items"] for (rid, ttl, _a, sup) in cands if unsup(rid, ttl, sup)})
-            repeat = prev_rx is not None and prev_rx[0] == b["data"] and b["t"] - prev_rx[2] < 1000
-            if any_owed and not owed and not b["outs"] and not repeat:
-                # nothing excuses the silence: not a repeat of the preceding datagram (C16), not truncated, the registry has the answers
+            if any_owed and not owed and not b["outs"] and not is_dup:
+                # nothing excuses the silence: not a repeat (C16) of the last processed datagram, not truncated, the registry has the answers
                 res.violate("C11:query-unanswered", "a query from %s (port %d) is not handled at all: %s are owed a reply (%s) and the datagram is not a "
-                            "repeat of the one before it" % (b["src_full"], b["src"][1], [uni.describe(i) for i in any_owed][:6],
-                                                             "unicast, and the normal multicast" if b["src"][1] != 5353 else "multicast"), at)
-        if b["kind"] == "rx" and mine:
-            prev_rx = (b["data"], b["src_full"], b["t"])
+                            "repeat inside one second: %s" % (
+                                b["src_full"], b["src"][1], [uni.describe(i) for i in any_owed][:6],
+                                "unicast, and the normal multicast" if b["src"][1] != 5353 else "multicast",
+                                "the last processed datagram with these bytes arrived %d ms earlier" % (b["t"] - guard[2]) if guard and guard[0] == b["data"]
+                                else "the last processed datagram had other bytes"), at)
+        if b["kind"] == "rx" and mine and len(b["data"]) <= 8966 and not is_dup:
+            hq = (b.get("pq") or (0, 0, "0 -"))[2].split()
+            guard = (b["data"], b["src_full"], b["t"], hq[0] == "1" and hq[1] != "-")
         # ---- a query that is answered: routing, destination, id, question echo -- one datagram or a truncated train, receive or timer block
         if b["asm"] and mine and b["kind"] in ("rx", "tc"):
             asm = b["asm"]
